@@ -163,14 +163,15 @@ class D5VwscChannelParser(VwscChannelParser):
         if DEBUG_SPRITE_INFO:
             logging.debug("Sprite[%d] unknown01: %d", i, unknown01)
     
-        ink_type = (int(frameData[indx]) % 64)
+        ink_byte = int(frameData[indx])
+        ink_type = (ink_byte % 64)
         
-        # The first two bits of ink_type is also a flag bit
-        unknown_flag = ((ink_type >> 7) & 1)
+        # The first two bits of the ink byte are flag bits
+        unknown_flag = ((ink_byte >> 7) & 1)
         if DEBUG_SPRITE_INFO:
             logging.debug("Sprite[%d] unknown_flag: %d", i, unknown_flag)
     
-        trails = ((ink_type >> 6) & 1)
+        trails = ((ink_byte >> 6) & 1)
         if DEBUG_SPRITE_INFO:
             logging.debug("Sprite[%d] trails: %d", i, trails)
     
